@@ -307,7 +307,25 @@ func runPair(sc *PairScn) (res pairResult) {
 		// let delayed notifications (500 ms) arrive
 		time.Sleep(900 * time.Millisecond)
 		nw.L.Add("H", "settled", "", "", 0)
+		lastNote := func(nd, peer *Node) int {
+			last := -1
+			for _, e := range nw.L.Events() {
+				if e.Who == nd.Name && e.Kind == "pairing" && e.Ski == peer.SKI {
+					last = e.N
+				}
+				if e.Who == nd.Name && e.Kind == "api:start" {
+					last = -1
+				}
+			}
+			return last
+		}
 		checkpoint := func(kind string) {
+			// a notification that is merely late (loaded machine) is no verdict: while the pair stays converged,
+			// wait generously for the last notification to show the current state; a stale one stays stale
+			n0 := accepts()
+			WaitFor(8*time.Second, func() bool {
+				return lastNote(a, b) == a.PairingState(b.SKI) && lastNote(b, a) == b.PairingState(a.SKI) || accepts() != n0
+			})
 			for _, nd := range []*Node{a, b} {
 				peer := b
 				if nd == b {
